@@ -103,7 +103,8 @@ func VerifC12Arith() {
 // VerifC12Notation: numerals of equal value written differently are equal in conditions, in set membership
 // and under IN; a finite list of notations (leading zeros, trailing zeros, exponent form, negative zero).
 func VerifC12Notation() {
-	pairs := [][2]string{{"1", "1.0"}, {"1", "01"}, {"10", "1e1"}, {"0", "-0"}, {"0.5", ".5"}, {"100", "1.00E2"}, {"7", "7.000"}, {"0.1", "0.10"}}
+	pairs := [][2]string{{"1", "1.0"}, {"1", "01"}, {"10", "1e1"}, {"0", "-0"}, {"0.5", ".5"}, {"100", "1.00E2"}, {"7", "7.000"}, {"0.1", "0.10"},
+		{"25000000000", "2.5e10"}, {"125000000000000000000", "1.25E+20"}, {"0.00000000015", "1.50e-10"}, {"10000000000000000", "1e16"}}
 	p := pairs[nd.Choice("pair", len(pairs))]
 	a, b := p[0], p[1]
 	li := &Language{}
